@@ -231,6 +231,22 @@ fn do_step(c: &mut Case, i: usize) -> String {
     if c.hung {
         return "HANG".into();
     }
+    // a thread about to acquire a permit is only released when one is available (otherwise it would
+    // block inside the semaphore, which is not a yield point)
+    if c.sched.state(i) == WState::AtGate("begun".into()) && c.pipe.available_permits() == 0 {
+        // a waiter that has been completed releases its permit when it returns: give it a moment
+        let n = c.txs.len();
+        let deadline = std::time::Instant::now() + Duration::from_millis(300);
+        while c.pipe.available_permits() == 0
+            && (0..n).any(|j| matches!(c.sched.state(j), WState::Marked(_)))
+            && std::time::Instant::now() < deadline
+        {
+            std::thread::sleep(Duration::from_millis(1));
+        }
+        if c.pipe.available_permits() == 0 {
+            return format!("at=begun vis={}", c.pipe.visible());
+        }
+    }
     let was_at_gate = matches!(c.sched.state(i), WState::AtGate(_));
     match c.sched.step(i, T) {
         None => {
